@@ -1,10 +1,11 @@
-\* quick: every set of <= 3 declarations over patterns with <= 1 path segment (+ "/*"), repaired code
+\* quick: every set of <= 2 declarations over patterns with <= 1 path segment (+ "/*"), repaired code
 CONSTANTS
   MaxBody = 1
-  MaxDecl = 3
+  MaxDecl = 2
   MaxUrl = 2
   ReuseOnLookup = FALSE
   FabricatedNorm = FALSE
+  RejectCollision = TRUE
   EmptyParam = FALSE
   WildHostCheck = TRUE
   KF_Shadow = TRUE
@@ -12,5 +13,5 @@ CONSTANTS
   NChunks = 32
   EmitPrefix = "g_"
 SPECIFICATION Spec
-INVARIANTS Accepted OrderIndependent
+INVARIANTS Accepted OrderIndependent OneReading
 CHECK_DEADLOCK FALSE
